@@ -74,6 +74,13 @@ def _mk_sub2(Sub):
     return type("Sub2", (Sub,), {})
 
 
+def _mk_chain(Base):
+    """Mid(Base) and Leaf(Mid) created together, late; Mid is never instantiated or used as a target by this call."""
+    Mid = type("Mid", (Base,), {})
+    Leaf = type("Leaf", (Mid,), {})
+    return Mid, Leaf
+
+
 def _mk_inst(cls):
     return cls()
 
@@ -96,12 +103,15 @@ def _drop_hierarchy(ev_cls):
 class _Reg:
     """One registration in the reference registry."""
 
-    __slots__ = ("fn", "once", "consumed")
+    __slots__ = ("fn", "once", "consumed", "prop", "origin", "oslot")
 
-    def __init__(self, fn, once):
+    def __init__(self, fn, once, prop=False, origin=None, oslot=-1):
         self.fn = fn
         self.once = once
         self.consumed = False
+        self.prop = prop  # registered with propagate=True (matters for dispatch._update(only_propagate=True))
+        self.origin = origin  # None: a registration made by event.listen on this target; else the registration
+        self.oslot = oslot    # (and its target slot) this entry was propagated from by dispatch._update()
 
 
 def _is_shuffle(obs, seqs) -> bool:
@@ -124,15 +134,22 @@ def _is_shuffle(obs, seqs) -> bool:
     return rec(0, [0] * len(seqs))
 
 
+NCLS = 5
+
+
 class _World:
     """The real objects plus the reference registry."""
 
-    def __init__(self):
+    def __init__(self, ninst0: int = 2):
         self.ev_cls, self.Base, self.Sub = native(_mk_hierarchy)
-        self.classes = [self.Base, self.Sub]  # index 2 = Sub2 once created
-        self.parents = [-1, 0]  # class index -> parent class index
+        # class index: 0 Base, 1 Sub(Base), 2 Sub2(Sub), 3 Mid(Base), 4 Leaf(Mid); None = not created yet
+        self.classes = [self.Base, self.Sub, None, None, None]
+        self.parents = [-1, 0, 1, 0, 3]  # class index -> parent class index
         self.insts = [native(_mk_inst, self.Base), native(_mk_inst, self.Sub)]
         self.inst_cls = [0, 1]
+        for _ in range(ninst0 - 2):
+            self.insts.append(native(_mk_inst, self.Base))
+            self.inst_cls.append(0)
         self.calls = []
         w = self
 
@@ -152,8 +169,8 @@ class _World:
                 raise Boom()
 
         self.fns = [f0, f1, f2]
-        # registry: slot (class index c -> c; instance index i -> 3 + i) -> ordered registrations
-        self.regs = [[], [], [], [], [], [], []]
+        # registry: slot (class index c -> c; instance index i -> NCLS + i) -> ordered entries
+        self.regs = [[] for _ in range(NCLS + 4)]
         self.exec_once_done = [False, False, False, False]
 
     # -- targets: 0 Base, 1 Sub, 2 insts[0] (a Base), 3 insts[1] (a Sub)
@@ -163,20 +180,25 @@ class _World:
         if t == 1:
             return 1, self.Sub
         if t == 2:
-            return 3, self.insts[0]
-        return 4, self.insts[1]
+            return NCLS, self.insts[0]
+        return NCLS + 1, self.insts[1]
 
     def find(self, key, f):
+        """The registration made by event.listen(target, fn) itself (propagated copies do not count)."""
         for r in self.regs[key]:
-            if r.fn == f:
+            if r.fn == f and r.origin is None:
                 return r
         return None
 
     def expected_seqs(self, i):
-        """Per-target sequences of listener indexes that must fire for a dispatch on instance i."""
+        """Per-target sequences of listener indexes that must fire for a dispatch on instance i.  Entries that
+        reached a collection through dispatch._update() form one sequence per collection they came from."""
         seqs = []
         for k in self._keys(i):
-            seqs.append([r for r in self.regs[k] if not (r.once and r.consumed)])
+            live = [r for r in self.regs[k] if not (r.once and r.consumed)]
+            seqs.append([r for r in live if r.origin is None])
+            for os_ in sorted(set(r.oslot for r in live if r.origin is not None)):
+                seqs.append([r for r in live if r.origin is not None and r.oslot == os_])
         return seqs
 
     def check_dispatch(self, i, x, how) -> bool:
@@ -247,46 +269,91 @@ class _World:
                 if event.contains(tgt, "ev_b", self.fns[f]):
                     return _no("contains:other-event")
         for i in range(len(self.insts)):
-            n = sum(len(self.regs[k]) for k in self._keys(i))
-            if len(self.insts[i].dispatch.ev_a) != n or bool(self.insts[i].dispatch.ev_a) != (n > 0):
-                return _no("len-or-bool")
             del self.calls[:]
             self.insts[i].dispatch.ev_b(5)
             if self.calls:
                 return _no("dispatch:other-event")
             if not self.check_dispatch(i, 7, 0):
                 return False
+            n = sum(len(self.regs[k]) for k in self._keys(i))
+            if len(self.insts[i].dispatch.ev_a) != n or bool(self.insts[i].dispatch.ev_a) != (n > 0):
+                return _no("len-or-bool")
         return True
 
     def _keys(self, i):
         c = self.inst_cls[i]
-        keys = [3 + i]
+        keys = [NCLS + i]
         while c != -1:
             keys.append(c)
             c = self.parents[c]
         return keys
 
 
+UPDATE_PAIRS = [(1, 0), (2, 1), (2, 0)]  # (destination instance, source instance) of dispatch._update()
+
+
 class _Shape:
     """The part of the state that determines which operations are available (shared by the harness and by
     ``classify``, which re-decodes a history from the realised codes)."""
 
-    def __init__(self):
-        self.ncls = 2
-        self.ninst = 2
+    def __init__(self, prof: int = 0):
+        self.has_sub2 = False
+        self.has_chain = False
+        self.newest = 1  # class index created last
+        self.ninst = 3 if prof == 8 else 2
         self.nused = 0  # listener functions are interchangeable: canonical labelling
         self.registered = []  # (target, fn)
+        # instance-level collections incl. entries propagated by dispatch._update(): (fn, propagate flag, origin target)
+        self.entries = [[], [], [], []]
+
+    def copy(self) -> "_Shape":
+        s2 = _Shape()
+        s2.has_sub2, s2.has_chain, s2.newest, s2.ninst, s2.nused = self.has_sub2, self.has_chain, self.newest, self.ninst, self.nused
+        s2.registered = list(self.registered)
+        s2.entries = [list(e) for e in self.entries]
+        return s2
+
+    def classes(self) -> List[int]:
+        return [0, 1] + ([2] if self.has_sub2 else []) + ([3, 4] if self.has_chain else [])
 
     def alphabet(self, prof: int):
-        """Every operation available now: (kind, t, f, insert, once).
+        """Every operation available now: (kind, t, f, insert, once, propagate).
         kind 0 listen(target t, fn f) / 1 remove(target t, fn f) / 2 create Sub2(Sub) / 3 new instance of class t /
-        4 dispatch / 5 exec_once / 6 exec_once_unless_exception on instance t.
+        4 dispatch / 5 exec_once / 6 exec_once_unless_exception on instance t / 7 create Mid(Base) and Leaf(Mid) /
+        8 instance t's dispatch._update(instance f's dispatch, only_propagate=insert-field).
+        propagate None = the per-history flag.
         prof 0 full; 1 no once / exec_once (order + hierarchy); 2 once / exec_once focus (no insert, targets {Sub,
         Sub instance}, two listener functions, no new classes / instances, dispatch on the Sub instance);
         3 like 1 without insert, targets {Base, Sub, Sub instance}, two functions, new instance of the newest class;
         4 like 3 with targets {Sub, Sub instance}; 5 like 4 with a single listener function;
-        6 class targets only {Base, Sub}, two functions, no insert/once, dispatch on the Sub instance (same function on several levels)."""
+        6 class targets only {Base, Sub}, two functions, no insert/once, dispatch on the Sub instance (same function on several levels);
+        7 three-level hierarchy created late: listen/remove(Base, f0), create Mid(Base)+Leaf(Mid) (Mid untouched), new
+          instance of Mid or Leaf;
+        8 propagated collections: three instances a, b, c; listen(a, f0, propagate?), remove(a, f0), remove(b, f0),
+          b<-a / c<-b / c<-a by dispatch._update(only_propagate False/True)."""
         ops = []
+        if prof == 7:
+            if (0, 0) not in self.registered:
+                ops.append((0, 0, 0, False, False, None))
+            ops.append((1, 0, 0, False, False, None))
+            if not self.has_chain:
+                ops.append((7, 0, 0, False, False, None))
+            elif self.ninst < 4:
+                ops.append((3, 3, 0, False, False, None))
+                ops.append((3, 4, 0, False, False, None))
+            return ops
+        if prof == 8:
+            if (2, 0) not in self.registered and not any(e[0] == 0 for e in self.entries[0]):
+                ops.append((0, 2, 0, False, False, False))
+                ops.append((0, 2, 0, False, False, True))
+            ops.append((1, 2, 0, False, False, None))
+            ops.append((1, 3, 0, False, False, None))
+            for (dst, src) in UPDATE_PAIRS:
+                # copying a function into a collection that already contains it is outside (see META)
+                if self.entries[src] and not any(e[0] == d[0] for e in self.entries[src] for d in self.entries[dst]):
+                    ops.append((8, dst, src, False, False, None))
+                    ops.append((8, dst, src, True, False, None))
+            return ops
         nf = 1 if prof == 5 else min(self.nused + 1, 2 if prof in (2, 3, 4, 6) else 3)
         tg = [1, 3] if prof in (2, 4, 5) else ([0, 1, 3] if prof == 3 else ([0, 1] if prof == 6 else [0, 1, 2, 3]))
         for t in tg:
@@ -295,37 +362,49 @@ class _Shape:
                     continue  # registering the identical triple twice is undocumented: outside
                 for i in ((False,) if prof in (2, 3, 4, 5, 6) else (False, True)):
                     for o in ((False,) if prof in (1, 3, 4, 5, 6) else (False, True)):
-                        ops.append((0, t, f, i, o))
+                        ops.append((0, t, f, i, o, None))
         for t in tg:
             for f in range(nf):
-                ops.append((1, t, f, False, False))
-        if prof not in (2, 6) and self.ncls == 2:
-            ops.append((2, 0, 0, False, False))
+                ops.append((1, t, f, False, False, None))
+        if prof not in (2, 6) and not self.has_sub2:
+            ops.append((2, 0, 0, False, False, None))
         if prof not in (2, 6) and self.ninst < 4:
-            for c in ([self.ncls - 1] if prof in (3, 4, 5) else range(self.ncls)):
-                ops.append((3, c, 0, False, False))
+            for c in ([self.newest] if prof in (3, 4, 5) else self.classes()):
+                ops.append((3, c, 0, False, False, None))
         insts = [1] if prof in (2, 6) else list(range(self.ninst))
         for i in insts:
-            ops.append((4, i, 0, False, False))
+            ops.append((4, i, 0, False, False, None))
         if prof in (0, 2):
             for k in (5, 6):
                 for i in insts:
-                    ops.append((k, i, 0, False, False))
+                    ops.append((k, i, 0, False, False, None))
         return ops
 
     def apply(self, op) -> None:
-        kind, t, f, _, _ = op
+        kind, t, f, i_, _, pr = op
         if kind == 0:
             self.registered.append((t, f))
+            if t >= 2:
+                self.entries[t - 2].append((f, bool(pr), t))
             if f == self.nused:
                 self.nused += 1
         elif kind == 1:
             if (t, f) in self.registered:
                 self.registered.remove((t, f))
+                for lst in self.entries:
+                    lst[:] = [e for e in lst if not (e[0] == f and e[2] == t)]
         elif kind == 2:
-            self.ncls += 1
+            self.has_sub2 = True
+            self.newest = 2
         elif kind == 3:
             self.ninst += 1
+        elif kind == 7:
+            self.has_chain = True
+            self.newest = 4
+        elif kind == 8:
+            for e in list(self.entries[f]):
+                if (not i_) or e[1]:
+                    self.entries[t].append(e)
 
 
 def _bpick(v, lo: int, hi: int) -> int:
@@ -350,11 +429,13 @@ def _chunk(n: int, b: int):
 
 
 def _do(w: _World, op, x, pg: bool) -> bool:
-    kind, t, f, i_, o = op
+    kind, t, f, i_, o, pr = op
     if kind == 0:
         key, tgt = w.target(t)
-        event.listen(tgt, "ev_a", w.fns[f], insert=i_, propagate=pg, once=o)
-        r = _Reg(f, o)
+        if pr is None:
+            pr = pg
+        event.listen(tgt, "ev_a", w.fns[f], insert=i_, propagate=pr, once=o)
+        r = _Reg(f, o, pr)
         if i_:
             w.regs[key].insert(0, r)
         else:
@@ -371,11 +452,23 @@ def _do(w: _World, op, x, pg: bool) -> bool:
         if raised != (r is None):
             return _no("remove:InvalidRequestError")
         if r is not None:
-            w.regs[key].remove(r)
+            # the registration and everything propagated from it
+            for lst in w.regs:
+                lst[:] = [e for e in lst if e is not r and e.origin is not r]
         return True
     if kind == 2:
-        w.classes.append(native(_mk_sub2, w.Sub))
-        w.parents.append(1)
+        w.classes[2] = native(_mk_sub2, w.Sub)
+        return True
+    if kind == 7:
+        w.classes[3], w.classes[4] = native(_mk_chain, w.Base)
+        return True
+    if kind == 8:
+        # what Pool.recreate() (only_propagate=False) and the to_metadata()/copy routes (only_propagate=True) do
+        only_prop = i_
+        w.insts[t].dispatch._update(w.insts[f].dispatch, only_propagate=only_prop)
+        for e in list(w.regs[NCLS + f]):
+            if (not only_prop) or e.prop:
+                w.regs[NCLS + t].append(_Reg(e.fn, False, e.prop, origin=(e.origin if e.origin is not None else e), oslot=NCLS + f))
         return True
     if kind == 3:
         w.insts.append(native(_mk_inst, w.classes[t]))
@@ -385,8 +478,8 @@ def _do(w: _World, op, x, pg: bool) -> bool:
 
 
 def _history(n: int, prof: int, pg: bool, a0: int, b1: int, codes, xs) -> bool:
-    w = _World()
-    sh = _Shape()
+    w = _World(3 if prof == 8 else 2)
+    sh = _Shape(prof)
     try:
         for k in range(n):
             al = sh.alphabet(prof)
@@ -435,7 +528,8 @@ META = {
         "append_to_list,prepend_to_list}", "event.registry.{_stored_in_collection,_removed_from_collection} (_key_to_collection bookkeeping)",
         "event.attr._ClsLevelDispatch.{_do_insert_or_append,insert,append,update_subclass,remove}",
         "event.attr._EmptyListener.{__init__,for_modify,__call__,__len__,__bool__}",
-        "event.attr._ListenerCollection.{insert,append,remove,__call__}", "event.attr._CompoundListener.{exec_once,exec_once_unless_exception,_exec_once_impl,__call__,__len__,__bool__}",
+        "event.attr._ListenerCollection.{insert,append,remove,_update,__call__}", "event.base._Dispatch._update (the route of Pool.recreate / copies)",
+        "event.registry._stored_in_collection_multi", "event.attr._CompoundListener.{exec_once,exec_once_unless_exception,_exec_once_impl,__call__,__len__,__bool__}",
         "event.base.{_Dispatch.__init__/__getattr__/_for_instance, dispatcher.__get__, Events._accept_with/_listen, _HasEventsDispatch._create_dispatcher_class}",
         "util.langhelpers.{only_once,walk_subclasses}",
     ],
@@ -445,6 +539,9 @@ META = {
                              "exec_once_unless_exception on any instance (exec_once variants with a symbolic value, x < 0: every listener raises); 3 operations in two profiles: "
                              "(order+hierarchy) no once/exec_once, and (once/exec_once) no insert, targets {Sub, Sub instance}, two functions, no new classes/instances; "
                              "4 operations over listen/remove on {Base, Sub} with two functions + dispatch on the Sub instance (same function on several levels); "
+                             "3..5 operations over listen/remove(Base, f0), late creation of Mid(Base)+Leaf(Mid) with Mid never instantiated or targeted, new instance of "
+                             "Mid/Leaf (three-level mro walk); 3..4 operations (thorough: ..5) over three instances a, b, c: listen(a, f0, propagate?), remove(a|b, f0), "
+                             "b<-a / c<-b / c<-a by dispatch._update(only_propagate False/True) (second-hand propagated collections); "
                              "every run ends with a dispatch of both events on every instance and event.contains for every (target, fn)"},
         "thorough": {"history": "<=3 operations over the full alphabet; 4 operations without once/exec_once/insert, two listener functions, targets {Base, Sub, the Sub instance}, "
                                 "new instance of the newest class only; 5 operations likewise with targets {Sub, the Sub instance} and one listener function; 5 operations over "
@@ -456,23 +553,36 @@ META = {
         "class-level collection (ancestors' and own registrations in chronological deque order) first, then instance-level",
         "registering the identical (target, identifier, fn) triple twice without removing it in between (undocumented: class-level collections "
         "append a duplicate, instance-level ones ignore it)",
-        "named=True / retval=True wrappers, legacy signatures, _JoinedListener (dispatch._join), _Dispatch._update/propagate sets, _clear()",
+        "named=True / retval=True wrappers, legacy signatures, _JoinedListener (dispatch._join), _clear()",
+        "dispatch._update() into a collection that already contains the same listener function (the dedupe / duplicate rules of "
+        "_ListenerCollection._update are undocumented); once=True or insert=True listeners combined with _update(); class-level listeners are "
+        "not transferred by _update() (by design)",
         "garbage collection of targets (registry._collection_gced)",
         "which listener runs first when listeners on different targets raise; once-registrations combined with raising listeners; "
         "raising listeners in a plain dispatch (raising is explored for exec_once / exec_once_unless_exception only)",
     ],
     "stubs": [],
     "assumptions": ["listener functions are interchangeable, so histories are explored up to renaming of the three functions (canonical labelling)",
-                    "propagate=True/False is accepted by event.listen for a plain Events class; the reference registry gives it no effect "
-                    "(class-level listeners always reach subclasses; documented only for ORM events)"],
+                    "propagate=True/False is accepted by event.listen for a plain Events class; the reference registry gives it no effect on class-level "
+                    "listeners (they always reach subclasses; documented only for ORM events); for instance-level listeners it selects what "
+                    "dispatch._update(only_propagate=True) copies",
+                    "reference semantics of dispatch._update(src): the destination fires the copied listeners until event.remove() of the ORIGINAL "
+                    "registration, which removes them from every collection they were propagated to (event.remove docstring: 'all the event registration "
+                    "which proceeded as a result of this call will be reverted'); event.contains is keyed by the original target only"],
 }
 
 
 def _slices(n: int, prof: int, pgs=(False,)) -> List[dict]:
-    n0 = len(_Shape().alphabet(prof))
+    al0 = _Shape(prof).alphabet(prof)
     out = []
-    for a0 in range(n0):
+    for a0 in range(len(al0)):
+        sh = _Shape(prof)
+        sh.apply(al0[a0])
+        n1 = len(sh.alphabet(prof))
         for b1 in (range(NCHUNK) if n >= 2 else (0,)):
+            lo, hi = _chunk(n1, b1)
+            if n >= 2 and lo >= hi:
+                continue  # empty part of a small alphabet
             for pg in pgs:
                 out.append(dict(n=n, prof=prof, pg=pg, a0=a0, b1=b1))
     return out
@@ -487,17 +597,21 @@ def harnesses(tier: str) -> List[Harness]:
         hs.append(Harness("events_len3_order", h_events3, _slices(3, 1), budget_s=200))
         hs.append(Harness("events_len3_once", h_events3, _slices(3, 2), budget_s=200))
         hs.append(Harness("events_len4_levels", h_events5, _slices(4, 6), budget_s=200))
+        hs.append(Harness("events_late_chain", h_events5, _slices(3, 7) + _slices(4, 7) + _slices(5, 7), budget_s=200))
+        hs.append(Harness("events_propagated", h_events5, _slices(3, 8) + _slices(4, 8), budget_s=300))
     else:
         hs.append(Harness("events_full", h_events3, _slices(1, 0, both) + _slices(2, 0, both) + _slices(3, 0), budget_s=2500))
         hs.append(Harness("events_len4", h_events5, _slices(4, 3), budget_s=2500))
         hs.append(Harness("events_len5", h_events5, _slices(5, 5), budget_s=2500))
         hs.append(Harness("events_len5_levels", h_events5, _slices(5, 6), budget_s=2500))
+        hs.append(Harness("events_late_chain", h_events5, _slices(3, 7) + _slices(4, 7) + _slices(5, 7), budget_s=2500))
+        hs.append(Harness("events_propagated", h_events5, _slices(3, 8) + _slices(4, 8) + _slices(5, 8), budget_s=2500))
     return hs
 
 
 def _decode(args):
     """Re-decode the realised codes into the operation list (same walk as ``_history``, no SQLAlchemy)."""
-    sh = _Shape()
+    sh = _Shape(args["prof"])
     codes = [args.get("c%d" % i) for i in range(1, 5)]
     out = []
     for k in range(args["n"]):
@@ -548,9 +662,9 @@ def classify(hname, args, rep):
     hist = []
     feats = []
     for (op, x) in ops:
-        kd, t, f, i_, o = op
+        kd, t, f, i_, o, pr = op
         if kd == 0:
-            hist.append("listen(t%d,f%d%s%s%s)" % (t, f, ",insert" if i_ else "", ",propagate" if args["pg"] else "", ",once" if o else ""))
+            hist.append("listen(t%d,f%d%s%s%s)" % (t, f, ",insert" if i_ else "", ",propagate" if (args["pg"] if pr is None else pr) else "", ",once" if o else ""))
             for flag, nm in ((i_, "insert"), (o, "once"), (t >= 2, "instance-target")):
                 if flag and nm not in feats:
                     feats.append(nm)
@@ -559,7 +673,11 @@ def classify(hname, args, rep):
         elif kd == 2:
             hist.append("subclass")
         elif kd == 3:
-            hist.append("instance(cls%d)" % t)
+            hist.append("instance(%s)" % ["Base", "Sub", "Sub2", "Mid", "Leaf"][t])
+        elif kd == 7:
+            hist.append("late_chain(Mid(Base)<-Leaf(Mid))")
+        elif kd == 8:
+            hist.append("propagate(inst%d.dispatch._update(inst%d.dispatch,only_propagate=%s))" % (t, f, i_))
         else:
             hist.append("%s(inst%d,x=%d)" % (names[kd], t, x))
     if _same_fn_on_two_levels(ops):
